@@ -216,7 +216,7 @@ def _b(bits) -> str:
 
 
 # ------------------------------------------------------------------------------------ generators
-KINDS = ["basic", "chain", "deep", "guardcall", "method1", "methodN", "nested", "two", "chain", "basic", "deep", "guardcall",
+KINDS = ["basic", "chain", "deep", "guardcall", "three", "method1", "methodN", "nested", "two", "chain", "basic", "deep", "guardcall",
          "methodN", "nested", "free", "chain"]
 
 
@@ -380,6 +380,8 @@ def gen(pid: str, index: int, seed: int, tier: str) -> dict:
     if tier == "thorough" and index % 4 == 3:
         P = {"n_branches": [2, 3, 4, 5], "max_nest": 2}
         cap = 20
+    if kind in ("three", "nested"):
+        cap = max(cap, 8)
     for attempt in range(50):
         rng = random.Random(f"{pid}/{seed}/{index}/{attempt}")
         spec = sg.gen_c12(rng, kind, P)
@@ -427,6 +429,22 @@ def directed() -> list[dict]:
         host, {"k": "method", "name": "M1", "ready": None, "nx": 0, "block": [_call("M0")]},
         {"k": "method", "name": "M2", "ready": None, "nx": 0, "block": [_call("M1", en=3)]},
         {"k": "trans", "name": "T0", "ready": 1, "block": [_call("M2", en=2)]}], "c12:directed-chain3"))
+    # simultaneity groups of four bodies: three conditions in one body / three nesting levels in a transaction /
+    # a condition in a method called from a branch of a nested condition
+    def c2(a, b_, nb=0, prio=0, blk_a=None, blk_b=None):
+        return {"k": "cond", "nb": nb, "prio": prio, "branches": [{"c": a, "block": blk_a or []}, {"c": b_, "block": blk_b or []}]}
+
+    out.append(_mk(8, [("x0", 7), ("x1", None), ("x2", None)], [{"k": "trans", "name": "T0", "ready": 6, "block": [
+        c2(0, 1, prio=1, blk_a=[_call("x0")]), c2(2, 3, nb=1, blk_b=[_call("x1")]), c2(4, 5, blk_a=[_call("x2")])]}],
+        "c12:directed-three-conditions-in-one-body"))
+    out.append(_mk(7, [("x0", 6), ("x1", None)], [{"k": "trans", "name": "T0", "ready": 5, "block": [
+        c2(0, 1, blk_a=[c2(2, 3, prio=1, blk_a=[{"k": "cond", "nb": 0, "prio": 0, "branches": [
+            {"c": 4, "block": [_call("x0")]}, {"c": None, "block": [_call("x1")]}]}])])]}],
+        "c12:directed-nested-three-deep"))
+    out.append(_mk(7, [("x0", None), ("x1", 6)], [
+        {"k": "method", "name": "M0", "ready": None, "nx": 0, "block": [c2(3, 4, blk_a=[_call("x0")], blk_b=[_call("x1")])]},
+        {"k": "trans", "name": "T0", "ready": 5, "block": [c2(0, 1, blk_a=[c2(2, 2, blk_a=[_call("M0")])])]}],
+        "c12:directed-condition-below-nested-branch"))
     # T --enable_call--> outer{condition: branch -> mid}, mid -> leaf{condition: branch -> x0}
     out.append(_mk(5, [("x0", None)], [
         {"k": "method", "name": "M0", "ready": None, "nx": 0, "block": [
@@ -502,7 +520,7 @@ def run(ctx: Check):
     ctx.rule = ("cases = (circuit using condition(), input valuation); non-trivial = circuits with >= 2 merged transactions "
                 "of which one ran in some valuation (blocking/nonblocking, priority, default, overlapping, nested, in methods "
                 "with one or several callers, shared callees)")
-    run_simul(ctx, "C12", gen, monitor, directed(), witness_specs, nontrivial, n_quick=48, n_thorough=1600,
+    run_simul(ctx, "C12", gen, monitor, directed(), witness_specs, nontrivial, n_quick=40, n_thorough=1600,
               descriptor=descriptor)
 
 
